@@ -46,6 +46,15 @@ var c09ComposeCases = []faCase{
 		patch: "@@\nvar T identifier\n@@\n-T{...}\n+mk(T{...})\n\n@@\nvar U identifier\n@@\n-mk(U{})\n+zero(U)\n",
 		minus: "package p\n\nvar a = ⟦«T:Box»{}⟧\n\nvar b = ⟦«T:Bag»{«d1:x: 1»}⟧\n",
 		plus:  "package p\n\nvar a = ⟦mk(«T»{})⟧\n\nvar b = ⟦mk(«T»{«d1»})⟧\n"},
+	// identifier resolution left over from the first parse decides what a later change does to imports
+	{name: "second-deletes-import-after-shadow-removed",
+		patch: "@@\n@@\n-foo := mk()\n+setup()\n\n@@\n@@\n-import \"example.com/foo\"\n\n-foo.Old()\n+bar()\n",
+		minus: "package p\n\nimport \"example.com/foo\"\n\nfunc f() {\n\t⟦foo := mk()⟧\n\tif ok {\n\t\tfoo.Run()\n\t}\n}\n\nfunc g() {\n\tfoo.Old()\n}\n",
+		plus:  "package p\n\nimport \"example.com/foo\"\n\nfunc f() {\n\t⟦setup()⟧\n\tif ok {\n\t\tfoo.Run()\n\t}\n}\n\nfunc g() {\n\tfoo.Old()\n}\n"},
+	{name: "second-deletes-import-param-still-shadows",
+		patch: "@@\nvar x identifier\n@@\n-use(x)\n+x.Use()\n\n@@\n@@\n-import \"example.com/foo\"\n\n-foo.Old()\n+bar()\n",
+		minus: "package p\n\nimport \"example.com/foo\"\n\nfunc f(foo *T) {\n\t⟦use(«x:foo»)⟧\n}\n\nfunc g() {\n\tfoo.Old()\n}\n",
+		plus:  "package p\n\nimport \"example.com/foo\"\n\nfunc f(foo *T) {\n\t⟦«x».Use()⟧\n}\n\nfunc g() {\n\tfoo.Old()\n}\n"},
 	// an earlier change leaves a tree that prints as text whose parse has another shape
 	{name: "first-leaves-single-result-in-parens",
 		patch: "@@\nvar name identifier\n@@\n-func name(foo string) (..., error) {\n+func name(foo string) (...) {\n- return ..., nil\n+ return ...\n }\n\n@@\nvar name identifier\n@@\n-func name(foo string) string {\n+func name(foo int) string {\n   ...\n }\n",
